@@ -918,11 +918,28 @@ func checkGobDead(w *World, r *Report) {
 	lf := w.ssaFunc(w.fn("LoadFromCompiled"))
 	parse := w.method("Parser", "Parse")
 	found := false
-	instrsOf(lf, func(in ssa.Instruction) {
-		if c, ok := in.(ssa.CallInstruction); ok && calleeFunc(c) == parse {
-			found = true
+	seenLF := map[*ssa.Function]bool{}
+	var scanLF func(g *ssa.Function, d int)
+	scanLF = func(g *ssa.Function, d int) {
+		if g == nil || seenLF[g] || d > 3 || found {
+			return
 		}
-	})
+		seenLF[g] = true
+		instrsOf(g, func(in ssa.Instruction) {
+			c, ok := in.(ssa.CallInstruction)
+			if !ok {
+				return
+			}
+			if calleeFunc(c) == parse {
+				found = true
+			}
+			// through unexported helpers of the package
+			if h := c.Common().StaticCallee(); h != nil && isTwigFn(h) && h.Object() != nil && !h.Object().Exported() {
+				scanLF(h, d+1)
+			}
+		})
+	}
+	scanLF(lf, 0)
 	if found {
 		r.ok("R16.4", ssaName(lf), "falls back to parsing the stored source", w.posOf(lf.Pos()), "calls Parser.Parse", false)
 	} else {
